@@ -376,6 +376,46 @@ Proof.
   split; [reflexivity|]. split; [discriminate | reflexivity].
 Qed.
 
+(* ---- the functions read nothing but metadata.deletionTimestamp and metadata.finalizers ---- *)
+Lemma c05_lookup_filter_keys : forall (p : string -> bool) (k : string) (l : list (string * json)),
+  lookup k (filter_keys p l) = if p k then lookup k l else None.
+Proof.
+  intros p k l; induction l as [|[k' v] l IH]; cbn; [destruct (p k); reflexivity|].
+  destruct (p k') eqn:P; cbn.
+  - destruct (String.eqb k k') eqn:E; [apply String.eqb_eq in E; subst k'; rewrite P; reflexivity | exact IH].
+  - destruct (String.eqb k k') eqn:E; [apply String.eqb_eq in E; subst k'; rewrite P in IH |- *; exact IH | exact IH].
+Qed.
+
+Lemma core_ongoing : forall body, is_deletion_ongoing (core_body body) = is_deletion_ongoing body.
+Proof.
+  intro body. destruct body; try reflexivity.
+  unfold is_deletion_ongoing, get_metadata, core_body. cbn.
+  destruct (lookup "metadata" kvs) as [m|]; cbn; [|reflexivity].
+  destruct m; cbn; try reflexivity.
+  rewrite c05_lookup_filter_keys. cbn. reflexivity.
+Qed.
+
+Lemma core_blocked : forall fin body, is_deletion_blocked fin (core_body body) = is_deletion_blocked fin body.
+Proof.
+  intros fin body. destruct body; try reflexivity.
+  unfold is_deletion_blocked, get_metadata, core_body. cbn.
+  destruct (lookup "metadata" kvs) as [m|]; cbn; [|reflexivity].
+  destruct m; cbn; try reflexivity.
+  rewrite c05_lookup_filter_keys. cbn. reflexivity.
+Qed.
+
+Lemma core_detect_body : forall fin ev body on de ini,
+  detect_body fin ev (core_body body) on de ini = detect_body fin ev body on de ini.
+Proof.
+  intros. unfold detect_body, atoms_of_body. rewrite core_ongoing, core_blocked. reflexivity.
+Qed.
+
+Lemma core_cycle : forall fin ev body on de ini cons hs,
+  cycle fin ev (core_body body) on de ini cons hs = cycle fin ev body on de ini cons hs.
+Proof.
+  intros. unfold cycle. rewrite core_detect_body, core_ongoing, core_blocked. reflexivity.
+Qed.
+
 (* detect_body = detect on the atoms read from the body (DELETED is decided before the body is read) *)
 Lemma from_body : forall fin ev body on de ini r i,
   detect_body fin ev body on de ini = Ok (r, i) ->
